@@ -41,6 +41,9 @@ func RunC20(c *lib.Ctx) {
 	if c.Only == "" || strings.HasPrefix(c.Only, "wb-") {
 		timed("whitebox", func() { runWhiteBox(c) })
 	}
+	if c.Only == "" || strings.HasPrefix(c.Only, "cc-") {
+		timed("concurrent_selection", func() { runConcurrentSelection(c) })
+	}
 	if c.Only == "" || strings.HasPrefix(c.Only, "bb-") {
 		timed("blackbox", func() { runBlackBox(c) })
 	}
